@@ -1,6 +1,7 @@
 package main
 
 import (
+	"math/big"
 	"bytes"
 	"encoding/base64"
 	"encoding/binary"
@@ -241,7 +242,9 @@ func c15Corpus(c *core.Ctx) [][]byte {
 		if fmt.Sprint(x) == n {
 			add(starlark.MakeInt64(x))
 		} else {
-			add(sval.BoundaryInts()[len(sval.BoundaryInts())-1])
+			var bi big.Int
+			bi.SetString("-340282366920938463463374607431768211457", 10) // a 17-byte integer
+			add(starlark.MakeBigInt(&bi))
 		}
 	}
 	add(starlark.None)
